@@ -3243,6 +3243,19 @@ def search(ctx, broken):
         for code, text in problems:
             V.add(c.key(code, res_class(r)), '{} :: {}'.format(text, impl_desc(r))[:400],
                   c.desc())
+    # values of the legacy product-space interface: the oracle alone, on more cases
+    for case in ps_cases(ctx, 4000):
+        try:
+            r = ps_run_case(case)
+        except Exception as e:  # noqa
+            V.add(ps_key(case, 'case-construction-raised:{}'.format(type(e).__name__)),
+                  '{}: {}'.format(type(e).__name__, str(e)[:200]), case)
+            continue
+        if r is None:
+            continue
+        ctx.evaluations += 1
+        for code, text in r['problems']:
+            V.add(ps_key(case, code), '{} :: {}'.format(text, r['impl'])[:400], case)
     V.flush()
 
 
